@@ -125,10 +125,11 @@ def main():
         if i in CHECKS:
             eng, tech, text, note, ref = CHECKS[i]
             if i not in ("C11", "C19", "C20"):
-                text += " Cross-cutting (DESIGN.md 2.1a, 4.1-4.3): contents with a meaning (dictionary mined from the tree, nested messages, EAP/PPP shapes, sizes around 2^16), histories on one object (reused receivers and buffers, values copied by value, results overwritten by the caller), interleaved re-execution of earlier cases, a Trace-level re-run of every eighth case, a cold-start concurrent probe in a process of its own, and a second run of the quick tier on a 32-bit build (GOARCH=386)."
-                tech += "; interleaved and Trace-level re-execution; cold-start concurrent probe; second run on a 32-bit build"
+                text += " Cross-cutting (DESIGN.md 2.1a, 4.1-4.3): contents with a meaning (dictionary mined from the tree, nested messages, EAP/PPP shapes, sizes around 2^16), histories on one object (reused receivers and buffers, values copied by value, results overwritten by the caller), interleaved re-execution of earlier cases, a re-run of every eighth case at another log level (trace, debug, quieter), cold-start concurrent probes in processes of their own (the first calls of each entry point made by 16 goroutines at once), a side run of the concurrent and cold-start units under the Go race detector (DESIGN.md 2.1 item 9), and a second run of the quick tier on a 32-bit build (GOARCH=386)."
+                tech += "; interleaved and log-level re-execution; cold-start concurrent probes; Go race detector over the concurrent units; second run on a 32-bit build"
             elif i in ("C11", "C20"):
-                text += " Also run on a 32-bit build (GOARCH=386, quick tier)."
+                text += " Cold-start concurrent probes in processes of their own, a side run of the concurrent and cold-start units under the Go race detector (DESIGN.md 2.1 item 9), and a second run of the quick tier on a 32-bit build (GOARCH=386)."
+                tech += "; cold-start concurrent probes; Go race detector over the concurrent units; second run on a 32-bit build"
             m["checks"].append({
                 "property_id": i,
                 "quick_cmd": f"./vcheck {i} quick",
